@@ -31,6 +31,7 @@ namespace {
 constexpr uint64_t kLive = 0x11ce5ca11ab1e000ULL, kDead = 0xdeadca11ab1edeadULL;
 
 struct Cover {
+    uint64_t bodyDoneBeforeStartReturned = 0;
     uint64_t starts = 0, lateStarts = 0, polledFinishes = 0, runnables = 0, canaryChecks = 0, argChecks = 0, copiesMade = 0, nontrivialCases = 0;
     std::map<std::string, uint64_t> kinds;
     std::vector<uint64_t> fps;
@@ -66,6 +67,8 @@ struct Shared {
     std::string *a1 = nullptr;
     long *a2 = nullptr;
     unsigned dwellUs = 0;
+    bool runExitBeforeStartReturned = false;
+    std::atomic<uint64_t> doneStamp{0};
 };
 
 struct Canary {
@@ -88,6 +91,7 @@ void body(Shared *s, const Canary *c, int *x0, std::string *x1, long *x2, int na
     if (s->dwellUs) usleep(s->dwellUs);
     if (c && !c->ok()) s->badCanary.fetch_add(1);       // still alive at exit?
     if (s->thread && s->thread->isFinished()) s->sawFinishedInside.fetch_add(1);
+    s->doneStamp.store(stampNow());
     s->done.store(1);
 }
 
@@ -165,15 +169,17 @@ void runCase(uint64_t c, rt::Rng rng) {
     bool poll = rng.chance(600);
     bool clobber = !rng.chance(150);
     unsigned startDelay = rng.chance(750) ? (unsigned) rng.below(5000) : 0;
+    bool delayCreator = startDelay && rng.chance(350);   // hold up the starter instead: the new thread runs ahead of it
     static const char *kn[] = {"function-pointer", "small-closure", "large-functor(256B)", "copyable-functor", "Runnable"};
     char d[200];
-    snprintf(d, sizeof d, "kind=%s args=%d via=%s startDelay<=%uus dwell=%uus poll=%d", kn[kind], kind == 4 ? 0 : nargs, viaCtor ? "constructor" : "start()", startDelay, sh.dwellUs, (int) poll);
+    snprintf(d, sizeof d, "kind=%s args=%d via=%s %s<=%uus dwell=%uus poll=%d", kn[kind], kind == 4 ? 0 : nargs, viaCtor ? "constructor" : "start()", delayCreator ? "creatorDelay" : "startDelay", startDelay, sh.dwellUs, (int) poll);
     gDesc = d;
     rt::crumb("%s", d);
     ++C.kinds[kn[kind]];
 #if HAVE_SPY
     spy::Delays dl;
-    dl.threadStart = startDelay ? 1000 : 0;
+    dl.threadStart = startDelay && !delayCreator ? 1000 : 0;
+    dl.afterCreate = delayCreator ? 1000 : 0;
     dl.threadStartMaxUs = startDelay;
     spy::configure(dl, rt::mix(rt::st().seed, c));
 #endif
@@ -223,26 +229,29 @@ void runCase(uint64_t c, rt::Rng rng) {
             break;
     }
     uint64_t startReturned = stampNow();
+    sh.runExitBeforeStartReturned = sh.doneStamp.load() != 0 && sh.doneStamp.load() < startReturned;
     // the starter keeps using its stack: everything start() left behind is overwritten
     if (clobber) { clobberStack(0xdd); clobberStack(0x5a); }
     ++C.starts;
 
     if (poll) {
         // a poller that sees isFinished() must then see the callable's last action
-        for (;;) {
+        // (bounded by logical steps once the callable is known to have returned: a flag that never
+        // turns true is reported by the check after join(), not by a watchdog)
+        for (unsigned grace = 0; grace < 20000;) {
             if (t->isFinished()) {
                 if (!sh.done.load()) fail("finished-before-return", "isFinished", "isFinished() was true before the callable had returned");
                 ++C.polledFinishes;
                 break;
             }
-            if (rng.chance(300)) sched_yield();
-            if (sh.invocations.load() > 1) break;
+            if (sh.done.load()) { ++grace; sched_yield(); }
+            else if (rng.chance(300)) sched_yield();
         }
     }
     if (!t->isJoinable()) fail("not-joinable", "join", "a started Thread is not joinable");
     t->join();
     if (!sh.done.load()) fail("join-before-return", "join", "join() returned before the callable had returned");
-    if (!t->isFinished() || t->isRunning()) fail("finished-before-return", "isFinished", "isFinished() is false / isRunning() true after join()");
+    if (!t->isFinished() || t->isRunning()) fail("not-finished-after-join", "isFinished", "isFinished() is false / isRunning() is true after join() returned: completion is never reported");
     int inv = sh.invocations.load();
     if (inv != 1) fail("invocation-count", kn[kind], "the callable was invoked " + std::to_string(inv) + " times");
     if (sh.bodyTid.load() == starterTid) fail("not-a-new-thread", kn[kind], "the callable ran on the starting thread");
@@ -259,6 +268,7 @@ void runCase(uint64_t c, rt::Rng rng) {
     C.copiesMade += (uint64_t) sh.copies.load();
     bool late = sh.bodyStamp.load() > startReturned;
     if (late) { ++C.lateStarts; ++C.nontrivialCases; }
+    if (delayCreator && sh.done.load() && sh.runExitBeforeStartReturned) ++C.bodyDoneBeforeStartReturned;
     rt::Hash h;
     h.add((uint64_t) kind); h.add((uint64_t) nargs); h.add(viaCtor); h.add(late); h.add(poll); h.add(sh.dwellUs > 0); h.add(startDelay / 500);
     if (late) C.fps.push_back(h.get());
@@ -290,7 +300,7 @@ int main(int argc, char **argv) {
     spy::stopMonitor();
 #endif
     rt::dumpFingerprints(C.fps);
-    rt::finish(rt::Json().kv("engine", "h_thread").kv("starts", C.starts).kv("lateStarts", C.lateStarts).kv("polledFinishes", C.polledFinishes)
+    rt::finish(rt::Json().kv("engine", "h_thread").kv("starts", C.starts).kv("lateStarts", C.lateStarts).kv("bodyDoneBeforeStartReturned", C.bodyDoneBeforeStartReturned).kv("polledFinishes", C.polledFinishes)
                    .kv("runnables", C.runnables).kv("canaryChecks", C.canaryChecks).kv("argumentIdentityChecks", C.argChecks)
                    .kv("callableCopiesObserved", C.copiesMade).kv("nontrivialCases", C.nontrivialCases)
                    .raw("kinds", rt::jsonCounts(C.kinds)).raw("samples", rt::jsonArray(C.samples, false)));
